@@ -175,7 +175,7 @@ Definition scratch_sig_render (chipid sigid : N) : json :=
 
 (* the FFDC payload is JSON text, UTF-8, NUL-terminated (any number of NULs); shown is what that text
    denotes ({"@loads": t} = the value json.loads gives for t) *)
-Definition ffdc_render (t : text) : json := JObj [(L "Callout List FFDC", JObj [(L "@loads", JStr t)])].
+Definition ffdc_render (t : text) : hw_result := ffdc_of_text t.
 
 (* a chip-data environment all of whose register addresses are hex numbers *)
 Definition cd_addrs_wf (cd : chipdata) : Prop :=
